@@ -526,7 +526,8 @@ class ContractSet:
                 target.trusted = True
             elif kw == 'callsite':
                 # callsite <callee short name> requires <expr> : extra obligation at every call of that callee
-                m2 = re.match(r'(\w+)\s+requires\s+(.*)$', rest, re.S)
+                # (callee#k : only the k-th call of that callee in this function, counted from 0 in source-line order)
+                m2 = re.match(r'(\w+(?:#\d+)?)\s+requires\s+(.*)$', rest, re.S)
                 if not m2:
                     raise SpecError('bad callsite clause %r' % rest)
                 target.callsites.append((m2.group(1), Clause(tags, parse_expr(m2.group(2)), m2.group(2))))
